@@ -31,7 +31,9 @@ const std::vector<Prof> kKmg = {
     {(1LL << 31), (1LL << 31) / 100 * 105, 0},    // grew 1.05x (ratio ~1.258 after the warm-up)
     {0, (1LL << 31), 0},                          // appeared from nothing
 };
-const long long kSwapVals[] = {0, 1, MB, (1LL << 31) - 4096, 1LL << 31, (1LL << 32) + 4096, 1LL << 40, 1LL << 61};
+// 1074266112 = exactly 50% of the SwapTotal of memory configuration 1 ((2^21+1024) kB, not a multiple of 100 bytes): a usage AT the
+// percentage threshold is not above it
+const long long kSwapVals[] = {0, 1, MB, 1074266112LL, (1LL << 31) - 4096, 1LL << 31, (1LL << 32) + 4096, 1LL << 40, 1LL << 61};
 struct MemCfg {
   long long swapTotalKb, memTotalKb;
 };
@@ -101,7 +103,7 @@ struct C09 : vr::Driver {
         }
       }
     }
-    int nS = th ? 8 : 6;
+    int nS = th ? 9 : 7;
     for (int a = 0; a < nS; a++)
       for (int b = 0; b < nS; b++)
         for (int c = 0; c < nS; c++)
@@ -402,7 +404,7 @@ struct C09 : vr::Driver {
     return "flat sets of 3 equally-preferred siblings (kill_by_memory_size_or_growth also 4 and 5 siblings over 6 profiles, where growing_size_percentile selects a different rank), dry=true, first choice = cgroup named by the '(dry)' record of the evaluation tick. "
            "kill_by_memory_size_or_growth: 10 (previous usage, usage, memory.low) profiles per sibling (sizes 0..2^61, 2^31 and 2^32 boundaries, "
            "growth x1/x1.05/x1.25/x2/from nothing, half/fully protected) after a 5-tick warm-up x size_threshold {0,50,100} x min_growth_ratio "
-           "{1,1.25,1.5} x growing_size_percentile {0,50,80,99}; kill_by_swap_usage: swap {0,1,2^20,2^31-4096,2^31,2^32+4096,(2^40,2^61)} per sibling x 4 "
+           "{1,1.25,1.5} x growing_size_percentile {0,50,80,99}; kill_by_swap_usage: swap {0,1,2^20,exactly 50% of a SwapTotal that is no multiple of 100,2^31-4096,2^31,2^32+4096,(2^40,2^61)} per sibling x 4 "
            "(SwapTotal,MemTotal) pairs around 2^31/2^32 x threshold {default,0,50%,1.5G,4096K,2048} x biased x protection; kill_by_pressure: 8 "
            "(avg10,avg60) profiles with fractional means x resource; kill_by_io_cost: 7 two-tick io.stat profiles (zero, negative, huge increase; SSD/HDD/"
            "unconfigured device); kill_by_pg_scan: 7 two-tick pgscan profiles (zero, negative, +1, huge). Oracle: reference ranking in long double / exact "
